@@ -8,38 +8,38 @@ set_option linter.unusedSimpArgs false
 namespace AGH.Filter
 open AGH AGH.Bytes
 
-theorem shortCircuit_none (c : Conf) (q : Query) (h : reserved c q = false) : shortCircuit c q = none := by
+theorem reserved_parts (c : Conf) (q : Query) (h : reserved c q = false) :
+    ¬(c.aaaaDisabled = true ∧ q.qtype = tAAAA) ∧ ¬((q.qtype = tA ∨ q.qtype = tAAAA) ∧ q.name = mozillaFQDN) ∧
+    q.name ≠ healthcheckFQDN ∧ dhcpHost c q = none := by
   unfold reserved at h
-  simp only [Bool.or_eq_false_iff, Bool.and_eq_false_iff, beq_eq_false_iff_ne, ne_eq,
-    Bool.or_eq_false_iff] at h
-  obtain ⟨⟨h1, h2⟩, h3⟩ := h
-  unfold shortCircuit
-  have e1 : ¬(c.aaaaDisabled = true ∧ q.qtype = tAAAA) := by
-    intro ⟨a, b⟩; rcases h1 with h1 | h1
+  simp only [Bool.or_eq_false_iff, Bool.and_eq_false_iff, beq_eq_false_iff_ne, ne_eq] at h
+  obtain ⟨⟨⟨h1, h2⟩, h3⟩, h4⟩ := h
+  refine ⟨?_, ?_, h3, ?_⟩
+  · intro ⟨a, b⟩; rcases h1 with h1 | h1
     · simp [a] at h1
     · exact h1 b
-  have e2 : ¬((q.qtype = tA ∨ q.qtype = tAAAA) ∧ q.name = mozillaFQDN) := by
-    intro ⟨a, b⟩; rcases h2 with h2 | h2
+  · intro ⟨a, b⟩; rcases h2 with h2 | h2
     · rcases a with a | a <;> simp [a] at h2
     · exact h2 b
+  · cases hd : dhcpHost c q with
+    | none => rfl
+    | some x => simp [hd] at h4
+
+theorem shortCircuit_none (c : Conf) (q : Query) (h : reserved c q = false) : shortCircuit c q = none := by
+  obtain ⟨e1, e2, h3, _⟩ := reserved_parts c q h
+  unfold shortCircuit
   simp [e1, e2, h3]
 
-theorem shortCircuit_some (c : Conf) (q : Query) (h : reserved c q = true) :
-    ∃ m, shortCircuit c q = some (.done m [] none) := by
-  unfold shortCircuit
-  by_cases e1 : c.aaaaDisabled = true ∧ q.qtype = tAAAA
-  · exact ⟨msgNODATA c q, by rw [if_pos e1]⟩
-  · by_cases e2 : (q.qtype = tA ∨ q.qtype = tAAAA) ∧ q.name = mozillaFQDN
-    · exact ⟨msgNXDOMAIN c q, by rw [if_neg e1, if_pos e2]⟩
-    · by_cases e3 : q.name = healthcheckFQDN
-      · exact ⟨reply q rcSuccess, by rw [if_neg e1, if_neg e2, if_pos e3]⟩
-      · exfalso
-        unfold reserved at h
-        simp only [Bool.or_eq_true, Bool.and_eq_true, beq_iff_eq] at h
-        rcases h with (h | h) | h
-        · exact e1 h
-        · exact e2 h
-        · exact e3 h
+theorem dhcpStage_none (e : Engines) (c : Conf) (u : Upstream) (q : Query) (h : reserved c q = false) :
+    dhcpStage e c u q = none := by
+  unfold dhcpStage
+  rw [(reserved_parts c q h).2.2.2]
+
+/-- outside the reserved names the request goes through the filtering stages -/
+theorem handle_eq_main (e : Engines) (c : Conf) (u : Upstream) (q : Query) (h : reserved c q = false) :
+    handle e c u q = handleMain e c u q := by
+  unfold handle
+  rw [shortCircuit_none c q h, dhcpStage_none e c u q h]
 
 theorem genDNSFilterMessage_question (c : Conf) (q : Query) (r : Result) :
     (genDNSFilterMessage c q r).qname = q.name ∧ (genDNSFilterMessage c q r).qtype = q.qtype := by
@@ -350,5 +350,96 @@ theorem firstBlocked_candidate (e : Engines) (c : Conf) (rr : RR) (h : Bytes) (t
   have hp := List.find?_some hfb
   apply List.mem_map.mpr
   exact ⟨(h, t), List.mem_filter.mpr ⟨hmem, hp⟩, rfl⟩
+
+/-! ### the question section is echoed byte for byte -/
+
+theorem genBlockedHost_question (c : Conf) (u : Upstream) (q : Query) (bh : BlockHost) :
+    (genBlockedHost c u q bh).1.qname = q.name ∧ (genBlockedHost c u q bh).1.qtype = q.qtype := by
+  unfold genBlockedHost
+  cases bh <;> simp [reply, responseWithIPs]
+
+theorem blockedMessage_question (c : Conf) (u : Upstream) (q : Query) (res : Result) :
+    (blockedMessage c u q res).1.qname = q.name ∧ (blockedMessage c u q res).1.qtype = q.qtype := by
+  unfold blockedMessage
+  split
+  · exact genBlockedHost_question c u q _
+  · split
+    · exact genBlockedHost_question c u q _
+    · exact genDNSFilterMessage_question c q res
+
+theorem forwardStage_question (e : Engines) (c : Conf) (u : Upstream) (q : Query) (res : Result)
+    (m : Msg) (log : List Query) (ql : Option QLog) (h : forwardStage e c u q res = .done m log ql) :
+    m.qname = q.name ∧ m.qtype = q.qtype ∧ log = [q] := by
+  unfold forwardStage at h
+  dsimp only at h
+  split at h
+  · cases h; exact ⟨rfl, rfl, rfl⟩
+  · split at h
+    · cases h
+    · cases h
+      exact ⟨(genDNSFilterMessage_question c q _).1, (genDNSFilterMessage_question c q _).2, rfl⟩
+    · cases h; exact ⟨rfl, rfl, rfl⟩
+
+/-- whatever the filtering stages decide, the response carries the question of
+the request, spelled as the client spelled it -/
+theorem handleMain_question (e : Engines) (c : Conf) (u : Upstream) (q : Query)
+    (m : Msg) (log : List Query) (ql : Option QLog) (h : handleMain e c u q = .done m log ql) :
+    m.qname = q.name ∧ m.qtype = q.qtype := by
+  unfold handleMain at h
+  split at h
+  · cases h
+  · dsimp only at h
+    split at h
+    · cases h; exact ⟨rfl, rfl⟩
+    · split at h
+      · cases h; exact blockedMessage_question c u q _
+      · split at h
+        · cases h; simp [cnameWithIPs, reply]
+        · split at h
+          · cases h; simp [hostsResponse, reply]
+          · have := forwardStage_question e c u q _ m log ql h
+            exact ⟨this.1, this.2.1⟩
+
+theorem shortCircuit_question (c : Conf) (q : Query) (m : Msg) (log : List Query) (ql : Option QLog)
+    (h : shortCircuit c q = some (.done m log ql)) : m.qname = q.name ∧ m.qtype = q.qtype := by
+  unfold shortCircuit at h
+  split at h
+  · cases h; simp [msgNODATA, reply]
+  · split at h
+    · cases h; simp [msgNXDOMAIN, reply]
+    · split at h
+      · cases h; simp [reply]
+      · cases h
+
+theorem handle_question (e : Engines) (c : Conf) (u : Upstream) (q : Query) (hd : dhcpHost c q = none)
+    (m : Msg) (log : List Query) (ql : Option QLog) (h : handle e c u q = .done m log ql) :
+    m.qname = q.name ∧ m.qtype = q.qtype := by
+  unfold handle dhcpStage at h
+  rw [hd] at h
+  split at h
+  · rename_i o ho; subst h; exact shortCircuit_question c q m log ql ho
+  · exact handleMain_question e c u q m log ql h
+
+/-- with no legacy rewrite / hosts entry in front and no safe-browsing or parental
+block, the only question ever sent upstream is the client's own, letter case included -/
+theorem handleMain_log (e : Engines) (hwf : EnginesWF e) (c : Conf) (u : Upstream) (q : Query)
+    (hpre : precededByOther e c q = false) (hob : otherBlocks e c q = false)
+    (m : Msg) (log : List Query) (ql : Option QLog) (h : handleMain e c u q = .done m log ql) :
+    ∀ x ∈ log, x = q := by
+  cases hb : blockedByRules e c q with
+  | true =>
+    obtain ⟨res, hm, _⟩ := handleMain_blocked e hwf c u q hb
+    rw [hm] at h; cases h; intro x hx; cases hx
+  | false =>
+    cases hs : serviceMayBlock e c q with
+    | true =>
+      obtain ⟨res, hm, _⟩ := handleMain_serviceOnly e hwf c u q hb hs
+      rw [hm] at h; cases h; intro x hx; cases hx
+    | false =>
+      obtain ⟨res, hres, _, _, h3, _⟩ := checkHost_spec e hwf c q hpre
+      obtain ⟨hnf, hreason, _⟩ := h3 hb hs hob
+      rw [handleMain_of_plain e c u q res hres hnf hreason] at h
+      have := (forwardStage_question e c u q res m log ql h).2.2
+      rw [this]; intro x hx; simpa using hx
 
 end AGH.Filter
